@@ -184,6 +184,19 @@ fn eval_builtin_incbin(
 
     if bytes.len() == 0
     {
+        // An empty file is an empty value,
+        // but it has nothing to take a range of
+        if query.args.len() >= 2
+        {
+            query.report.error_span(
+                format!(
+                    "`incbin` range starts after EOF ({} >= {})",
+                    start,
+                    bytes.len()),
+                query.args[1].span);
+            return Err(());
+        }
+
         return Ok(expr::Value::make_integer(util::BigInt::from_bytes_be(&[])));
     }
 
@@ -327,13 +340,6 @@ fn eval_builtin_incstr(
 
     let bigint_size = bigint.size.unwrap();
 
-    // Like `incbin`, an empty file is an empty value,
-    // whatever the requested range
-    if bigint_size == 0
-    {
-        return Ok(expr::Value::make_integer(bigint));
-    }
-
     let start = {
         if query.args.len() >= 2
         {
@@ -362,6 +368,25 @@ fn eval_builtin_incstr(
             bigint_size / bits_per_char
         }
     };
+
+    // Like `incbin`, an empty file is an empty value,
+    // but it has nothing to take a range of
+    if bigint_size == 0
+    {
+        if query.args.len() >= 2
+        {
+            query.report.error_span(
+                format!(
+                    "`{}` range starts after EOF ({} >= {})",
+                    funcname,
+                    start,
+                    bigint_size / bits_per_char),
+                query.args[1].span);
+            return Err(());
+        }
+
+        return Ok(expr::Value::make_integer(bigint));
+    }
 
     if start.saturating_mul(bits_per_char) >= bigint_size
     {
